@@ -73,7 +73,18 @@ CONFIGS = {
                alphabet=[I("hold", 0), I("hold", 2), I("wevent", 1), I("tadd", 0, -5), I("tadd", 1, 7), I("evcancel", 1)] + both("intr", -2, 5)),
   "wev2s": dict(np=2, prio=[0, 1], auto=[1, 1], nres=1, poolcap=1, maxlen=3, maxtime=4, uevs=[(1, 0, I("stop", 1, 5))],
                alphabet=[I("hold", 1), I("wevent", 1), I("tadd", 1, 7), I("acq", 1), I("wproc", 1), I("wproc", 2)]),
+  # large configurations, explored by TLC random walks (-simulate) in the thorough tier only
+  "big3": dict(np=3, prio=[0, 1, 2], auto=[1, 1, 1], nres=1, poolcap=2, bufcap=2, oqcap=1, pqcap=1, maxlen=6, maxtime=12,
+               alphabet=[I("hold", 0), I("hold", 1), I("hold", 2), I("acq", 1), I("rel", 1), I("pre", 1), I("pacq", 1), I("pacq", 2), I("prel", 1), I("ppre", 2),
+                         I("tadd", 1, -5), I("tadd", 2, 7), I("intr", 1, -2, 5), I("intr", 2, 9, 0), I("stop", 3, 4), I("wproc", 1), I("wproc", 2),
+                         I("prio", 1, 2), I("prio", 3, 0), I("bput", 1), I("bget", 2), I("qput", 1), I("qget")]),
+  "big4": dict(np=4, prio=[0, 0, 1, 2], auto=[1, 1, 1, 1], nres=1, poolcap=2, bufcap=2, oqcap=1, pqcap=2, maxlen=5, maxtime=10, uevs=[(2, 0, I("stop", 2, 5))],
+               alphabet=[I("hold", 0), I("hold", 1), I("acq", 1), I("rel", 1), I("pacq", 1), I("prel", 1), I("ppre", 2), I("tadd", 1, -5), I("intr", 1, -2, 5),
+                         I("intr", 3, 9, 0), I("wproc", 4), I("wevent", 1), I("exit", 12), I("prio", 2, 2), I("bput", 2), I("bget", 1), I("qput", 2), I("qget"),
+                         I("pqput", 1, 1), I("pqput", 2, 0), I("pqget"), I("pqcancel", 1), I("cwait", 0), I("cwait", 2), I("csig"), I("setflag", 0, 1), I("csub", 0),
+                         I("rec", 1, 1), I("rec", 1, 0), I("rec", 3, 1), I("rec", 3, 0)]),
 }
+SIMULATE = {"big3": (6000, 150), "big4": (6000, 150)}
 
 FOR_PROPERTY = {
   "C04": (["wait2", "wev2"], ["wait2r", "wev2s", "lost2", "end2"]),
@@ -93,7 +104,7 @@ def tla_tuple(t):
     return '<<"%s", %d, %d, %d>>' % t
 
 
-def write_config(name, cfg, export=True):
+def write_config(name, cfg, export=True, export_inv="ExportProg"):
     mod = "_gen_KernelMC_%s" % name
     with open(os.path.join(vlib.SPEC, mod + ".tla"), "w") as f:
         f.write("---- MODULE %s ----\nEXTENDS Kernel\n" % mod)
@@ -104,7 +115,7 @@ def write_config(name, cfg, export=True):
     with open(os.path.join(vlib.SPEC, mod + ".cfg"), "w") as f:
         f.write("SPECIFICATION Spec\nCONSTANTS\n  NP = %d\n  Prio0 <- c_Prio0\n  Auto <- c_Auto\n  NRes = %d\n  PoolCap = %d\n"
                 "  BufCap = %d\n  OqCap = %d\n  PqCap = %d\n  UEvs <- c_UEvs\n  Alphabet <- c_Alphabet\n  MaxLen = %d\n  MaxTime = %d\nINVARIANTS NoViolation QuiescentOK %s\nCONSTRAINT Constr\nVIEW %s\nCHECK_DEADLOCK FALSE\n"
-                % (cfg["np"], cfg["nres"], cfg["poolcap"], cfg.get("bufcap", 2), cfg.get("oqcap", 1), cfg.get("pqcap", 1), cfg["maxlen"], cfg["maxtime"], "ExportProg" if export else "",
+                % (cfg["np"], cfg["nres"], cfg["poolcap"], cfg.get("bufcap", 2), cfg.get("oqcap", 1), cfg.get("pqcap", 1), cfg["maxlen"], cfg["maxtime"], export_inv if export else "",
                    "ViewS" if cfg.get("restart") else "View"))
     return mod
 
@@ -161,11 +172,16 @@ def program_text(pid, cfg, scripts):
     return "\n".join(L)
 
 
-def run_config(pid, name, v=None, timeout=3000, export=True):
+def run_config(pid, name, v=None, timeout=3000, export=True, simulate=None):
+    """simulate = (number of random behaviours, depth): TLC random walks instead of breadth-first search"""
     cfg = CONFIGS[name]
-    mod = write_config(name, cfg, export)
+    mod = write_config(name, cfg, export, "ExportQuiescent" if simulate else "ExportProg")
     try:
-        r = vlib.tlc(pid, mod, mod + ".cfg", timeout=timeout, tag="kmc_" + name, heap="16g")
+        if simulate:
+            r = vlib.tlc(pid, mod, mod + ".cfg", timeout=timeout, tag="ksim_" + name, heap="8g", workers=8,
+                         simulate=simulate[0] // 8 + 1, depth=simulate[1], extra=["-seed", str(vlib.seed())])
+        else:
+            r = vlib.tlc(pid, mod, mod + ".cfg", timeout=timeout, tag="kmc_" + name, heap="16g")
     finally:
         for ext in (".tla", ".cfg"):
             try:
@@ -175,8 +191,9 @@ def run_config(pid, name, v=None, timeout=3000, export=True):
     if r.error:
         raise vlib.MachineryError("Kernel model checking (%s): %s" % (name, r.error))
     if v is not None:
-        v.add_tlc(r, "Kernel.tla + KMon monitors, config %s: all programs over %d instructions x %d per process, %d processes"
-                  % (name, len(cfg["alphabet"]), cfg["maxlen"], cfg["np"]))
+        v.add_tlc(r, "Kernel.tla + KMon monitors, config %s: %s over %d instructions x %d per process, %d processes"
+                  % (name, ("%d random behaviours (TLC -simulate)" % simulate[0]) if simulate else "all programs",
+                     len(cfg["alphabet"]), cfg["maxlen"], cfg["np"]))
     if r.violated:
         raise vlib.MachineryError("the kernel MODEL violates %s in config %s (a defect of the model, not of the code):\n%s"
                                   % (r.violated, name, r.out[-4000:]))
@@ -228,10 +245,10 @@ def model_check(pid, v, tier, out):
     if pid not in FOR_PROPERTY:
         return []
     quick, thorough = FOR_PROPERTY[pid]
-    names = quick + (thorough if tier == "thorough" else [])
+    names = quick + ((thorough + ["big3", "big4"]) if tier == "thorough" else [])
     res = []
     for name in names:
-        r, cfg, progs = run_config(pid, name, v)
+        r, cfg, progs = run_config(pid, name, v, simulate=SIMULATE.get(name))
         total = len(progs)
         cap = 1500 if tier == "quick" else 20000
         if total > cap:
